@@ -24,7 +24,7 @@ type World map[string]string
 var Baseline = World{
 	"qsig": "ok", "ak": "ok", "mut": "none", "bind": "ok", "qeSigner": "leaf", "authLen": "n32", "extra": "none",
 	"leafPki": "A", "interPki": "A", "rootPki": "A", "pool": "A", "leafRole": "pck", "nBlocks": "n3", "trailer": "none",
-	"pemType": "cert", "interCN": "platform", "leafId": "l1", "serials": "std", "sigShape": "any", "msgWide": "none", "sgxOrder": "canon", "sgxValues": "random", "leafExtCritical": "no", "interSlot": "inter", "rotVia": "pool", "sharedSigner": "distinct", "src": "gen",
+	"pemType": "cert", "interCN": "platform", "leafId": "l1", "serials": "std", "sigShape": "any", "msgWide": "none", "sgxOrder": "canon", "sgxValues": "random", "crlShape": "std", "leafExtCritical": "no", "interSlot": "inter", "rotVia": "pool", "sharedSigner": "distinct", "src": "gen",
 	"tcbSigner": "ok", "tcbOver": "member", "tcbAlter": "none", "tcbExtra": "none", "tcbHdr": "ok", "tcbMeta": "ok",
 	"qeSignerDoc": "ok", "qeOver": "member", "qeAlter": "none", "qeExtra": "none", "qeHdr": "ok", "qeMeta": "ok",
 	"tcbContent": "ok", "modBranch": "none", "qeContent": "ok",
@@ -1162,20 +1162,28 @@ func Build(w World, p Params) *Concrete {
 	}
 	var pckCrl []byte
 	pcw := win["pckCrlNext"]
+	// every CRL of this world in the shape the world asks for
+	mkCRL := func(issuer *x509.Certificate, key *ecdsa.PrivateKey, revoked []*big.Int, reason int, nb, na time.Time) []byte {
+		der := CRLReason(issuer, key, revoked, reason, nb, na)
+		if w.Get("crlShape") == "noNumber" {
+			der = StripCrlNumber(der, key)
+		}
+		return der
+	}
 	switch w.Get("pckCrlSigner") {
 	case "inter":
-		pckCrl = CRL(embInter.Cert, embInter.Key, pckRev, pcw.nb, pcw.na)
+		pckCrl = mkCRL(embInter.Cert, embInter.Key, pckRev, 0, pcw.nb, pcw.na)
 	case "root": // signed by the root CA, issuer name = root
-		pckCrl = CRL(embRoot.Cert, embRoot.Key, pckRev, pcw.nb, pcw.na)
+		pckCrl = mkCRL(embRoot.Cert, embRoot.Key, pckRev, 0, pcw.nb, pcw.na)
 	case "rootNamedInter": // signed by the root key but claiming the intermediate's name
-		pckCrl = CRL(named(embInter.Cert, embRoot.Key), embRoot.Key, pckRev, pcw.nb, pcw.na)
+		pckCrl = mkCRL(named(embInter.Cert, embRoot.Key), embRoot.Key, pckRev, 0, pcw.nb, pcw.na)
 	case "foreignNamed":
-		pckCrl = CRL(named(embInter.Cert, foreign), foreign, pckRev, pcw.nb, pcw.na)
+		pckCrl = mkCRL(named(embInter.Cert, foreign), foreign, pckRev, 0, pcw.nb, pcw.na)
 	case "otherPki": // the look-alike PKI's intermediate
 		o := pki[otherPKI(w.Get("interPki"))]
-		pckCrl = CRL(o.Inter.Cert, o.Inter.Key, pckRev, pcw.nb, pcw.na)
+		pckCrl = mkCRL(o.Inter.Cert, o.Inter.Key, pckRev, 0, pcw.nb, pcw.na)
 	case "foreignWithHeader": // foreign key, intermediate's name, and a response header that vouches for that key
-		pckCrl = CRL(named(embInter.Cert, foreign), foreign, pckRev, pcw.nb, pcw.na)
+		pckCrl = mkCRL(named(embInter.Cert, foreign), foreign, pckRev, 0, pcw.nb, pcw.na)
 	default:
 		panic("bad pckCrlSigner")
 	}
@@ -1183,13 +1191,13 @@ func Build(w World, p Params) *Concrete {
 	rcw := win["rootCrlNext"]
 	switch w.Get("rootCrlSigner") {
 	case "root":
-		rootCrl = CRLReason(embRoot.Cert, embRoot.Key, rootRev, map[bool]int{true: 8, false: 0}[strings.HasSuffix(w.Get("rootCrlRev"), "Reason8")], rcw.nb, rcw.na)
+		rootCrl = mkCRL(embRoot.Cert, embRoot.Key, rootRev, map[bool]int{true: 8, false: 0}[strings.HasSuffix(w.Get("rootCrlRev"), "Reason8")], rcw.nb, rcw.na)
 	case "inter":
-		rootCrl = CRL(embInter.Cert, embInter.Key, rootRev, rcw.nb, rcw.na)
+		rootCrl = mkCRL(embInter.Cert, embInter.Key, rootRev, 0, rcw.nb, rcw.na)
 	case "interNamedRoot":
-		rootCrl = CRL(named(embRoot.Cert, embInter.Key), embInter.Key, rootRev, rcw.nb, rcw.na)
+		rootCrl = mkCRL(named(embRoot.Cert, embInter.Key), embInter.Key, rootRev, 0, rcw.nb, rcw.na)
 	case "foreignNamed":
-		rootCrl = CRL(named(embRoot.Cert, foreign), foreign, rootRev, rcw.nb, rcw.na)
+		rootCrl = mkCRL(named(embRoot.Cert, foreign), foreign, rootRev, 0, rcw.nb, rcw.na)
 	default:
 		panic("bad rootCrlSigner")
 	}
